@@ -303,6 +303,7 @@ func runStoreHistory(add func(report.Violation), u *sUniverse, hist []int, tx bo
 			// legal answers
 			var legal [][]byte
 			var under []string
+			nvers := 0
 			maxVer := uint64(0)
 			if !prefix {
 				if r := ref[qs]; r != nil {
@@ -324,65 +325,75 @@ func runStoreHistory(add func(report.Violation), u *sUniverse, hist []int, tx bo
 						legal = append(legal, ref[k].wire)
 					}
 				}
+				nvers = len(vers)
 				if len(vers) > 1 {
 					nontriv = true
 				}
 			}
 			var got [2][]byte
+			// MemoryStore walks Go maps (random order per walk): when the answer could depend on the
+			// order (two versions under the prefix) the question is asked repeatedly and every answer
+			// is judged, so that an order-dependent defect is reported on every run
+			reps := []int{1, 1}
+			if prefix && nvers > 1 {
+				reps[0] = 24
+			}
 			for si, s := range stores {
-				w, err := s.s.Get(q, prefix)
-				atomic.AddInt64(&st.gets, 1)
-				if err != nil {
-					bad("C15.stores", s.n+": Get returns an error", fmt.Sprintf("Get(%s,%v) = %v", qs, prefix, err))
-					continue
-				}
-				got[si] = w
-				ok := false
-				if w == nil {
-					ok = len(legal) == 0
-				} else {
-					for _, l := range legal {
-						if bytes.Equal(l, w) {
-							ok = true
-						}
+				for rp := 0; rp < reps[si]; rp++ {
+					w, err := s.s.Get(q, prefix)
+					atomic.AddInt64(&st.gets, 1)
+					if err != nil {
+						bad("C15.stores", s.n+": Get returns an error", fmt.Sprintf("Get(%s,%v) = %v", qs, prefix, err))
+						continue
 					}
-				}
-				if ok {
-					continue
-				}
-				what := fmt.Sprintf("%s.Get(%s, prefix=%v) = %q; stored under it: %s", s.n, qs, prefix, w, describe(ref, under, qs, prefix))
-				switch {
-				case w == nil && prefix && maxVer == 0:
-					bad("C15.newest", s.n+": prefix Get never returns a version-0 packet", what)
-				case w == nil && prefix:
-					bad("C15.stores", s.n+": prefix Get returns nothing although packets are stored under the prefix", what)
-				case w == nil:
-					bad("C15.stores", s.n+": exact Get does not return the stored packet", what)
-				default:
-					// which packet was returned?
-					who := ""
-					for k, r := range ref {
-						if bytes.Equal(r.wire, w) {
-							who = k
-						}
-					}
-					switch {
-					case who == "":
-						rm := false
-						for k := range removed {
-							if strings.HasPrefix(string(w), k+"#") {
-								rm = true
+					got[si] = w
+					ok := false
+					if w == nil {
+						ok = len(legal) == 0
+					} else {
+						for _, l := range legal {
+							if bytes.Equal(l, w) {
+								ok = true
 							}
 						}
-						if rm {
-							bad("C15.removed", s.n+": Get returns a removed (or overwritten) packet", what)
-						} else {
-							bad("C15.stores", s.n+": Get returns a wire that is not stored", what)
-						}
-					case prefix && q.IsPrefix(names[who]):
-						bad("C15.newest", s.n+": prefix Get returns an older version than the newest stored under the prefix", what+fmt.Sprintf(" (returned version %d, newest %d)", ref[who].ver, maxVer))
+					}
+					if ok {
+						continue
+					}
+					what := fmt.Sprintf("%s.Get(%s, prefix=%v) = %q; stored under it: %s", s.n, qs, prefix, w, describe(ref, under, qs, prefix))
+					switch {
+					case w == nil && prefix && maxVer == 0:
+						bad("C15.newest", s.n+": prefix Get never returns a version-0 packet", what)
+					case w == nil && prefix:
+						bad("C15.stores", s.n+": prefix Get returns nothing although packets are stored under the prefix", what)
+					case w == nil:
+						bad("C15.stores", s.n+": exact Get does not return the stored packet", what)
 					default:
-						bad("C15.stores", s.n+": Get returns a packet that does not match the query", what)
+						// which packet was returned?
+						who := ""
+						for k, r := range ref {
+							if bytes.Equal(r.wire, w) {
+								who = k
+							}
+						}
+						switch {
+						case who == "":
+							rm := false
+							for k := range removed {
+								if strings.HasPrefix(string(w), k+"#") {
+									rm = true
+								}
+							}
+							if rm {
+								bad("C15.removed", s.n+": Get returns a removed (or overwritten) packet", what)
+							} else {
+								bad("C15.stores", s.n+": Get returns a wire that is not stored", what)
+							}
+						case prefix && q.IsPrefix(names[who]):
+							bad("C15.newest", s.n+": prefix Get returns an older version than the newest stored under the prefix", what+fmt.Sprintf(" (returned version %d, newest %d)", ref[who].ver, maxVer))
+						default:
+							bad("C15.stores", s.n+": Get returns a packet that does not match the query", what)
+						}
 					}
 				}
 			}
